@@ -129,6 +129,44 @@ func runUnits(v *Verifier, units []*Unit, dir string, quickT, longT int, all boo
 		}(i)
 	}
 	wg.Wait()
+	// second chance: an obligation that was not decided in the parallel pass
+	// (solver time limits are wall-clock and the machine may be loaded) is
+	// retried with little parallelism and a longer limit before it is reported
+	var retry []int
+	for i := range results {
+		r := &results[i]
+		if r.O.Kind == "cover" || r.SMT == "" {
+			continue
+		}
+		if r.R.Verdict == "timeout" || r.R.Verdict == "unknown" {
+			retry = append(retry, i)
+		}
+	}
+	if len(retry) > 0 && len(retry) <= 40 {
+		sem2 := make(chan struct{}, 4)
+		var wg2 sync.WaitGroup
+		for _, i := range retry {
+			wg2.Add(1)
+			sem2 <- struct{}{}
+			go func(i int) {
+				defer wg2.Done()
+				defer func() { <-sem2 }()
+				r := &results[i]
+				first := r.R
+				full := r.SMT
+				if strings.HasSuffix(full, ".light.smt2") || strings.HasSuffix(full, ".focus.smt2") {
+					return
+				}
+				nr := solve(full, longT, longT*3, false)
+				nr.Tried = append(append([]string{}, first.Tried...), append([]string{"retry"}, nr.Tried...)...)
+				if nr.Verdict == "unsat" || nr.Verdict == "sat" {
+					nr.Solver += "/retry"
+				}
+				r.R = nr
+			}(i)
+		}
+		wg2.Wait()
+	}
 	if os.Getenv("GOVC_STATS") != "" {
 		fmt.Fprintf(os.Stderr, "solver cache: %d hits, %d misses\n", cacheHits, cacheMisses)
 	}
